@@ -28,121 +28,142 @@ theorem isDigit_ne_dash {c : UInt8} (h : isDigit c = true) : c ≠ 45 := by
 theorem isDigit_ne_plus {c : UInt8} (h : isDigit c = true) : c ≠ 43 := by
   intro e; subst e; simp [isDigit] at h
 
-theorem splitOnByte_no (d : UInt8) : ∀ (s : Bytes), d ∉ s → splitOnByte d s = [s] := by
+theorem stripPlus_digits {s : Bytes} (hall : ∀ c ∈ s, isDigit c = true) : stripPlus s = s := by
+  cases s with
+  | nil => rfl
+  | cons x xs =>
+    have hx : x ≠ 43 := isDigit_ne_plus (hall x (by simp))
+    unfold stripPlus
+    split
+    · rename_i r heq; simp at heq; exact absurd heq.1 hx
+    · rfl
+
+theorem digitsVal_isSome_of_all : ∀ (s : Bytes) (acc : Nat), (∀ c ∈ s, isDigit c = true) → (digitsVal s acc).isSome = true := by
   intro s
   induction s with
-  | nil => intro _; rfl
-  | cons c cs ih =>
-    intro h
-    have hc : c ≠ d := fun e => h (by simp [e])
-    have hcs : d ∉ cs := fun hm => h (List.mem_cons_of_mem _ hm)
-    unfold splitOnByte
-    simp [hc, ih hcs]
-
-theorem splitOnByte_one (d : UInt8) : ∀ (a z : Bytes), d ∉ a → d ∉ z → splitOnByte d (a ++ d :: z) = [a, z] := by
-  intro a
-  induction a with
-  | nil => intro z _ hz; simp [splitOnByte, splitOnByte_no d z hz]
-  | cons c cs ih =>
-    intro z ha hz
-    have hc : c ≠ d := fun e => ha (by simp [e])
-    have hcs : d ∉ cs := fun hm => ha (List.mem_cons_of_mem _ hm)
-    simp only [List.cons_append]
-    unfold splitOnByte
-    simp [hc, ih z hcs hz]
-
-theorem parseU64_digits {s : Bytes} {v : Nat} (hne : s ≠ []) (h : digitsVal s 0 = some v) (hv : v < u64Mod) :
-    parseU64 s = some v := by
-  have hall := digitsVal_all_digits s 0 v h
-  have hstrip : stripPlus s = s := by
-    cases s with
-    | nil => rfl
-    | cons x xs =>
-      have hx : x ≠ 43 := isDigit_ne_plus (hall x (by simp))
-      unfold stripPlus
-      split
-      · rename_i r heq; simp at heq; exact absurd heq.1 hx
-      · rfl
-  unfold parseU64
-  simp [hstrip, hne, h, hv]
-
-theorem drop_takeWhile_length {α : Type} (p : α → Bool) : ∀ (l : List α),
-    l.drop (l.takeWhile p).length = l.dropWhile p := by
-  intro l
-  induction l with
-  | nil => rfl
+  | nil => intro _ _; rfl
   | cons x xs ih =>
-    by_cases hx : p x = true
-    · simp [List.takeWhile_cons, List.dropWhile_cons, hx, ih]
-    · simp [List.takeWhile_cons, List.dropWhile_cons, hx]
+    intro acc h
+    unfold digitsVal
+    simp only [h x (by simp), if_true]
+    exact ih _ (fun c hc => h c (List.mem_cons_of_mem _ hc))
 
-/-- a copy-source-range the store accepts is read by the backend's hand-written parser as the same positions -/
-theorem copyRange_agree {r : Bytes} {len st en : Nat} (hlen : len < u64Mod)
-    (h : StoreSpec.copyRange r len = some (st, en)) :
-    ∃ l, en = l + 1 ∧ st ≤ l ∧ l < len ∧ FsStore.copyRange (some r) len = some (st, l) := by
+/-- `position` reads exactly the non-empty all-digit strings whose value fits `u64` -/
+theorem parsePos_eq (s : Bytes) :
+    parsePos s = if s = [] then none else
+      match digitsVal s 0 with
+      | some v => if v < u64Mod then some v else none
+      | none => none := by
+  by_cases hs : s = []
+  · simp [parsePos, hs]
+  · simp only [hs, if_false]
+    cases hd : digitsVal s 0 with
+    | none =>
+      have hnall : ¬ (∀ c ∈ s, isDigit c = true) := fun hall => by
+        have := digitsVal_isSome_of_all s 0 hall
+        rw [hd] at this; simp at this
+      have : s.all isDigit = false := by
+        cases hb : s.all isDigit with
+        | false => rfl
+        | true => exact absurd (fun c hc => (List.all_eq_true.mp hb) c hc) hnall
+      simp [parsePos, this]
+    | some v =>
+      have hall := digitsVal_all_digits s 0 v hd
+      have hb : s.all isDigit = true := List.all_eq_true.mpr hall
+      have hstrip := stripPlus_digits hall
+      simp [parsePos, hs, hb, parseU64, hstrip, hd]
+
+/-- `split_once('-')` is the store's way of cutting the range at its first `-` -/
+theorem splitOnce_eq : ∀ (body : Bytes),
+    splitOnce 45 body =
+      if (body.drop (body.takeWhile (fun x => decide (x ≠ 45))).length).head? = some 45 then
+        some (body.takeWhile (fun x => decide (x ≠ 45)), (body.drop (body.takeWhile (fun x => decide (x ≠ 45))).length).drop 1)
+      else none := by
+  intro body
+  induction body with
+  | nil => simp [splitOnce]
+  | cons c cs ih =>
+    by_cases hc : c = 45
+    · subst hc; simp [splitOnce]
+    · unfold splitOnce
+      simp only [hc, if_false]
+      rw [ih]
+      have htw : (c :: cs).takeWhile (fun x => decide (x ≠ 45)) = c :: cs.takeWhile (fun x => decide (x ≠ 45)) := by
+        simp [hc]
+      rw [htw]
+      simp only [List.length_cons, List.drop_succ_cons]
+      by_cases hh : (cs.drop (cs.takeWhile (fun x => decide (x ≠ 45))).length).head? = some 45
+      · simp only [hh, if_true]
+      · simp only [hh, if_false]
+
+/-- the backend's reader of `x-amz-copy-source-range` (814bd03) accepts exactly what the store accepts, with the same
+    positions — for every byte string and every source length a file can have -/
+theorem copyRange_eq (r : Bytes) {len : Nat} (hlen : len < u64Mod) :
+    FsStore.copyRange (some r) len = StoreSpec.copyRange r len := by
+  unfold FsStore.copyRange StoreSpec.copyRange
+  have e6 : StoreSpec.sBytesEq = FsStore.sBytesEq := rfl
+  rw [e6]
+  dsimp only
+  by_cases h6 : r.take 6 ≠ FsStore.sBytesEq
+  · rw [if_pos h6, if_pos h6]
+  · rw [if_neg h6, if_neg h6]
+    generalize r.drop 6 = body
+    rw [splitOnce_eq]
+    generalize body.takeWhile (fun x => decide (x ≠ 45)) = a
+    generalize (body.drop a.length).drop 1 = z
+    by_cases hh : (body.drop a.length).head? = some 45
+    · rw [if_pos hh]
+      dsimp only
+      rw [parsePos_eq a, parsePos_eq z]
+      by_cases ha0 : a = []
+      · rw [if_pos ha0, if_pos (Or.inl ha0)]
+      · rw [if_neg ha0]
+        by_cases hz0 : z = []
+        · rw [if_pos hz0, if_pos (Or.inr (Or.inl hz0))]
+          cases digitsVal a 0 with
+          | none => rfl
+          | some f => by_cases hf : f < u64Mod <;> simp [hf]
+        · rw [if_neg hz0, if_neg (by simp [ha0, hz0, hh])]
+          cases digitsVal a 0 with
+          | none => rfl
+          | some f =>
+            cases digitsVal z 0 with
+            | none => by_cases hf : f < u64Mod <;> simp [hf]
+            | some l =>
+              by_cases hf : f < u64Mod
+              · by_cases hl : l < u64Mod
+                · simp [hf, hl]
+                · have : ¬ (f ≤ l ∧ l < len) := by omega
+                  simp [hf, hl, this]
+              · have : ¬ (f ≤ l ∧ l < len) := by omega
+                simp [hf, this]
+    · rw [if_neg hh, if_pos (Or.inr (Or.inr hh))]
+
+/-- what the store accepts selects at least one byte inside the source -/
+theorem copyRange_bounds {r : Bytes} {len st en : Nat} (h : StoreSpec.copyRange r len = some (st, en)) :
+    st < en ∧ en ≤ len := by
   unfold StoreSpec.copyRange at h
-  by_cases h6 : r.take 6 ≠ StoreSpec.sBytesEq
-  · simp [h6] at h
-  · simp only [h6, if_false] at h
-    generalize hbody : r.drop 6 = body at h
-    generalize ha : body.takeWhile (fun x => decide (x ≠ 45)) = a at h
-    by_cases hcond : a = [] ∨ ((body.drop a.length).drop 1) = [] ∨ (body.drop a.length).head? ≠ some 45
-    · rw [if_pos hcond] at h; simp at h
-    · rw [if_neg hcond] at h
-      have hcond' := not_or.mp hcond
-      have hcond2 := not_or.mp hcond'.2
-      cases hf : digitsVal a 0 with
-      | none => rw [hf] at h; simp at h
-      | some f =>
-        cases hl : digitsVal ((body.drop a.length).drop 1) 0 with
-        | none => rw [hf, hl] at h; simp at h
-        | some l =>
-          rw [hf, hl] at h
-          simp only at h
-          by_cases hb : f ≤ l ∧ l < len
-          · simp only [hb, and_self, if_true, Option.some.injEq, Prod.mk.injEq] at h
-            obtain ⟨rfl, rfl⟩ := h
-            refine ⟨l, rfl, hb.1, hb.2, ?_⟩
-            -- the body is `a - z`
-            have hhead : (body.drop a.length).head? = some 45 := by
-              have := hcond2.2; simpa using this
-            have hz : body.drop a.length = 45 :: (body.drop a.length).drop 1 := by
-              cases hd : body.drop a.length with
-              | nil => rw [hd] at hhead; simp at hhead
-              | cons y ys => rw [hd] at hhead; simp at hhead; subst hhead; rfl
-            have hsplit : body = a ++ 45 :: (body.drop a.length).drop 1 := by
-              have h1 : body = body.takeWhile (fun x => decide (x ≠ 45)) ++ body.dropWhile (fun x => decide (x ≠ 45)) :=
-                (List.takeWhile_append_dropWhile).symm
-              have h2 : body.drop a.length = body.dropWhile (fun x => decide (x ≠ 45)) := by
-                rw [← ha]
-                exact drop_takeWhile_length _ body
-              rw [ha] at h1
-              rw [← h2] at h1
-              rw [hz] at h1
-              exact h1
-            have hda : (45 : UInt8) ∉ a := fun hm => isDigit_ne_dash (digitsVal_all_digits a 0 f hf 45 hm) rfl
-            have hdz : (45 : UInt8) ∉ (body.drop a.length).drop 1 := fun hm =>
-              isDigit_ne_dash (digitsVal_all_digits _ 0 l hl 45 hm) rfl
-            have h6' : r.take 6 = FsStore.sBytesEq := by
-              have : ¬ r.take 6 ≠ StoreSpec.sBytesEq := h6
-              have e : StoreSpec.sBytesEq = FsStore.sBytesEq := rfl
-              rw [← e]
-              simpa using this
-            have hfl : f < u64Mod := by omega
-            have hll : l < u64Mod := by omega
-            unfold FsStore.copyRange
-            simp only [h6', ne_eq, not_true_eq_false, if_false, hbody]
-            rw [hsplit, splitOnByte_one 45 a _ hda hdz]
-            simp only [parseU64_digits hcond'.1 hf hfl, hcond2.1, if_false, parseU64_digits hcond2.1 hl hll]
-          · simp [hb] at h
+  dsimp only at h
+  split at h
+  · simp at h
+  · split at h
+    · simp at h
+    · split at h
+      · split at h
+        · rename_i hb
+          simp only [Option.some.injEq, Prod.mk.injEq] at h
+          omega
+        · simp at h
+      · simp at h
 
 /-- `upload_part_copy` comparable: any part number (outside 1..10000: `InvalidArgument` on both sides since 205d9a8; before:
     fs:part-number-not-validated); otherwise the upload does not exist
     (`NoSuchUpload` on both sides) or was created for this bucket and key [else fs:upload-not-bound-to-key], source names agree (a missing source bucket is
-    inside since cc244fc: `NoSuchBucket` on both sides), the source is not a directory and its size fits `i64`; a
-    `x-amz-copy-source-range`, if given, is one the store accepts: `bytes=first-last` inside the source
-    [else fs:part-copy-range-unchecked] -/
-def UploadPartCopyOk (s : State) (b k : Bytes) (u : UploadRef) (n : Int) (sb sk : Bytes) (range : Option Bytes) : Prop :=
+    inside since cc244fc: `NoSuchBucket` on both sides), the source is not a directory and its size fits `i64`. Any
+    `x-amz-copy-source-range` is inside — whatever the byte string: one that is not `bytes=first-last` inside the source is
+    `InvalidArgument` on both sides (814bd03, `copyRange_eq`; before, the backend accepted open-ended ranges and ranges beyond
+    the end: fs:part-copy-range-unchecked) -/
+def UploadPartCopyOk (s : State) (b k : Bytes) (u : UploadRef) (n : Int) (sb sk : Bytes) (_range : Option Bytes) : Prop :=
   (n < 1 ∨ n > 10000) ∨
   UploadOk s u b k ∧ NameOk sb ∧ CanonKey sk ∧
   (bucketOk sb = true →
@@ -155,29 +176,9 @@ def UploadPartCopyOk (s : State) (b k : Bytes) (u : UploadRef) (n : Int) (sb sk 
         match st.node sp with
         | none => True
         | some .dir => False
-        | some (.file c) =>
-          c.length ≤ i64Max ∧
-          match range with
-          | none => True
-          | some r => (StoreSpec.copyRange r c.length).isSome = true)
+        | some (.file c) => c.length ≤ i64Max)
 
 theorem i64Max_lt_u64Mod : i64Max < u64Mod := by decide
-
-theorem wrap_len (l st : Nat) (h1 : l + 1 < 18446744073709551616) (h2 : st ≤ l) :
-    (l + 18446744073709551616 - st + 1) % 18446744073709551616 = l + 1 - st := by
-  have e : l + 18446744073709551616 - st + 1 = (l + 1 - st) + 18446744073709551616 := by omega
-  rw [e, Nat.add_mod_right, Nat.mod_eq_of_lt (by omega)]
-
-theorem copyWhole (c : Bytes) (h : c.length < u64Mod) :
-    c.take (((c.length + u64Mod - 1) % u64Mod + u64Mod + 1) % u64Mod) = c := by
-  have : ((c.length + u64Mod - 1) % u64Mod + u64Mod + 1) % u64Mod = c.length := by
-    unfold u64Mod at h ⊢
-    by_cases h0 : c.length = 0
-    · rw [h0]
-    · have e1 : (c.length + 2 ^ 64 - 1) % 2 ^ 64 = c.length - 1 := by omega
-      rw [e1]; omega
-  rw [this]
-  simp
 
 theorem uploadPartCopy_refines (H : Hashes) (dl : Nat) {s : State} (hi : Inv s) {who : Who} {b k : Bytes}
     {u : UploadRef} {n : Int} {sb sk : Bytes} {range : Option Bytes} (hg : UploadPartCopyOk s b k u n sb sk range) :
@@ -237,15 +238,14 @@ theorem uploadPartCopy_refines (H : Hashes) (dl : Nat) {s : State} (hi : Inv s) 
               rw [hsn] at hslook hsrc
               simp only [Option.bind_some, nodeObj] at hslook
               simp only at hsrc
-              obtain ⟨hlen, hrng⟩ := hsrc
+              have hlen : c.length ≤ i64Max := hsrc
               have hlen' : c.length < u64Mod := Nat.lt_of_le_of_lt hlen i64Max_lt_u64Mod
               cases range with
               | none =>
-                have hbody := copyWhole c hlen'
                 have hstep : step H dl s (.uploadPartCopy who b k (some id) n sb sk none) =
                     ({ s with parts := alInsert (id, n) c s.parts }, .part (some (etagOf H c))) := by
                   have h0 : ¬ (0 > i64Max) := by decide
-                  simp [step, hnr, State.verify, hl, hown, objPath, hsbd, hskp, hsnode, hsn, copyRange, h0, hbody]
+                  simp [step, hnr, State.verify, hl, hown, objPath, hsbd, hskp, hsnode, hsn, copyRange, h0]
                 have hspec : StoreSpec.step H (abs s) (.uploadPartCopy who b k (some id) n sb sk none) =
                     ({ abs s with uploads := alInsert id (withPart (upOf s id ui) n c) (abs s).uploads },
                       .part (some (etagOf H c))) := by
@@ -254,29 +254,34 @@ theorem uploadPartCopy_refines (H : Hashes) (dl : Nat) {s : State} (hi : Inv s) 
                 obtain ⟨e1, e2⟩ := writePart_core (s' := { s with parts := alInsert (id, n) c s.parts }) hi hl rfl rfl rfl rfl rfl rfl rfl
                 exact ⟨rfl, e1, e2⟩
               | some r =>
-                simp only at hrng
+                have hmodel := copyRange_eq r hlen'
                 cases hcr : StoreSpec.copyRange r c.length with
-                | none => rw [hcr] at hrng; simp at hrng
+                | none =>
+                  -- not `bytes=first-last` inside the source: `InvalidArgument` on both sides, nothing changes
+                  rw [hcr] at hmodel
+                  have hstep : step H dl s (.uploadPartCopy who b k (some id) n sb sk (some r)) =
+                      (s, .err .InvalidArgument) := by
+                    simp [step, hnr, State.verify, hl, hown, objPath, hsbd, hskp, hsnode, hsn, hmodel]
+                  have hspec : StoreSpec.step H (abs s) (.uploadPartCopy who b k (some id) n sb sk (some r)) =
+                      (abs s, .err .InvalidArgument) := by
+                    simp [StoreSpec.step, hnr, hup, hown', hsbo, hsko, hsabs, hslook, hcr]
+                  rw [hstep, hspec]
+                  exact ⟨rfl, rfl, hi⟩
                 | some se =>
                   obtain ⟨st, en⟩ := se
-                  obtain ⟨l, rfl, hstl, hll, hmodel⟩ := copyRange_agree hlen' hcr
-                  have hcl : (l + u64Mod - st + 1) % u64Mod = l + 1 - st := by
-                    have e : u64Mod = 18446744073709551616 := by decide
-                    have h0 : i64Max < u64Mod := i64Max_lt_u64Mod
-                    have h1 : l + 1 < u64Mod := by omega
-                    rw [e] at h1 ⊢
-                    exact wrap_len l st h1 hstl
+                  rw [hcr] at hmodel
+                  have hbnd : st < en ∧ en ≤ c.length := copyRange_bounds hcr
                   have hst : ¬ st > i64Max := by omega
                   have hstep : step H dl s (.uploadPartCopy who b k (some id) n sb sk (some r)) =
-                      ({ s with parts := alInsert (id, n) (slice c st (l + 1)) s.parts },
-                        .part (some (etagOf H (slice c st (l + 1))))) := by
-                    simp [step, hnr, State.verify, hl, hown, objPath, hsbd, hskp, hsnode, hsn, hmodel, hcl, hst, slice]
+                      ({ s with parts := alInsert (id, n) (slice c st en) s.parts },
+                        .part (some (etagOf H (slice c st en)))) := by
+                    simp [step, hnr, State.verify, hl, hown, objPath, hsbd, hskp, hsnode, hsn, hmodel, hst, slice]
                   have hspec : StoreSpec.step H (abs s) (.uploadPartCopy who b k (some id) n sb sk (some r)) =
-                      ({ abs s with uploads := alInsert id (withPart (upOf s id ui) n (slice c st (l + 1))) (abs s).uploads },
-                        .part (some (etagOf H (slice c st (l + 1))))) := by
+                      ({ abs s with uploads := alInsert id (withPart (upOf s id ui) n (slice c st en)) (abs s).uploads },
+                        .part (some (etagOf H (slice c st en)))) := by
                     simp [StoreSpec.step, hnr, hup, hown', hsbo, hsko, hsabs, hslook, withPart, hcr]
                   rw [hstep, hspec]
-                  obtain ⟨e1, e2⟩ := writePart_core (s' := { s with parts := alInsert (id, n) (slice c st (l + 1)) s.parts }) hi hl rfl rfl rfl rfl rfl rfl rfl
+                  obtain ⟨e1, e2⟩ := writePart_core (s' := { s with parts := alInsert (id, n) (slice c st en) s.parts }) hi hl rfl rfl rfl rfl rfl rfl rfl
                   exact ⟨rfl, e1, e2⟩
     · simp [step, StoreSpec.step, State.verify, hl, hown, hnr, hup, hown', objPath, hsbd, hsbo, hi]
   · have hown' : (upOf s id ui).owner ≠ who := hown
